@@ -145,7 +145,7 @@ class Run:
             raise Infra("building the driver against %s failed:\n%s" % (REPO, p.stderr[-3000:]))
         return os.path.join(bdir, "mqdrive.bin")
 
-    def drive(self, progs, tag, workers=NCPU, timeout_ms=2000, mem_mib=1024, race=False):
+    def drive(self, progs, tag, workers=NCPU, timeout_ms=2000, mem_mib=1024, race=False, procs_all=False):
         """Executes programs on the real library; returns the list of trace shard paths."""
         binp = self.build_driver(race)
         inp = os.path.join(self.dir, tag + ".progs.ndjson")
@@ -157,7 +157,7 @@ class Run:
         outp = os.path.join(self.dir, tag + ".trace")
         t0 = time.time()
         env = dict(os.environ)
-        if race:
+        if race or procs_all:
             env["MQDRIVE_PROCS"] = "all"
         p = subprocess.run([binp, "run", "-in", inp, "-out", outp, "-workers", str(workers),
                             "-timeout", str(timeout_ms), "-mem", str(mem_mib)], capture_output=True, text=True, env=env)
@@ -174,7 +174,7 @@ class Run:
         notes, events = [], 0
 
         def one(sh):
-            name = "val-" + tag + "-" + os.path.basename(sh).split(".")[-1]
+            name = "val-" + os.path.basename(sh).replace(".trace", "").replace(".", "-")
             notes_path = sh + ".notes"
             cfg = "SPECIFICATION Spec\nPOSTCONDITION TraceDone\nCHECK_DEADLOCK FALSE\n"
             rc, text, path = self.tlc("Trace", cfg, name, env={"TRACE": sh, "NOTES": notes_path}, xmx="6g", xss="256m")
@@ -239,7 +239,7 @@ def note_signature(n):
             sig[k] = ex[k]
     if "keys" in ex:
         sig["keys"] = sorted(ex["keys"])
-    if "frame" in ex:
+    if isinstance(ex.get("frame"), list):
         sig["type"] = ex["frame"][0] >> 4 if ex["frame"] else -1
         sig["frame"] = ex["frame"]
     for k in ("list", "first", "wf", "wfErr", "hs", "sites"):
